@@ -40,6 +40,7 @@ fn main() {
         "c12_request_gate" => c12_request_gate(args.get(2).map(|s| s.as_str()).unwrap_or("")),
         "c12_send_order" => c12_send_order(),
         "c10_stale_limit" => c10_stale_limit(),
+        "c04_uni_streams" => c04_uni_streams(args.get(2).map(|s| s.as_str()).unwrap_or("duplicates")),
         "c09_split_halves" => c09_split_halves(),
         "c19_payload_with_header" => c19_payload_with_header(),
         "c19_uni_header" => c19_uni_header(
@@ -1132,6 +1133,120 @@ fn c09_split_halves() -> i32 {
             rc = 1;
         }
         std::mem::forget(conn);
+    }
+    rc
+}
+
+
+/// Server, classification of incoming unidirectional streams (poll_accept_recv):
+///  duplicates: a second control / QPACK encoder / QPACK decoder stream (in the same poll as the first, or in a later
+///              poll) must close the connection with H3_STREAM_CREATION_ERROR; the first of each kind must not;
+///  unknown:    streams of unknown type (0x21, 0x3f) and streams that end or are reset before their type is known must be
+///              tolerated: no close; the unknown ones are stop_sending'ed with H3_STREAM_CREATION_ERROR;
+///  wt:         a WebTransport unidirectional stream is handed on iff the extension is enabled, never an error.
+fn c04_uni_streams(mode: &str) -> i32 {
+    let (_c, waker) = counting_waker();
+    let mut cx = Context::from_waker(&waker);
+    let creation = Code::H3_STREAM_CREATION_ERROR.value();
+    let mut rc = 0;
+    let server = |wt: bool| -> (Mock, h3::server::Connection<Mock, Bytes>) {
+        let mock = Mock::new(true);
+        let mut b = h3::server::builder();
+        if wt {
+            b.enable_webtransport(true).enable_extended_connect(true).enable_datagram(true).max_webtransport_sessions(1);
+        }
+        let conn = drive(b.build(mock.clone()), 10).expect("build completes").expect("build ok");
+        (mock, conn)
+    };
+    match mode {
+        "duplicates" => {
+            for (ty, name) in [(0x00u8, "control"), (0x02, "QPACK encoder"), (0x03, "QPACK decoder")] {
+                for same_poll in [true, false] {
+                    let (mock, mut conn) = server(false);
+                    let first = if ty == 0 { vec![0x00, 0x04, 0x00] } else { vec![ty] };
+                    mock.push_uni(2, vec![RecvEvent::Data(first)]);
+                    if !same_poll {
+                        let _ = conn.poll_accept_request_stream(&mut cx);
+                        let closed = mock.world.lock().unwrap().log.closed.len();
+                        if closed != 0 {
+                            println!("REPRODUCED: the first {} stream closes the connection", name);
+                            rc = 1;
+                        }
+                    }
+                    mock.push_uni(6, vec![RecvEvent::Data(vec![ty])]);
+                    let _ = conn.poll_accept_request_stream(&mut cx);
+                    let _ = conn.poll_accept_request_stream(&mut cx);
+                    let closed: Vec<u64> = mock.world.lock().unwrap().log.closed.iter().map(|c| c.0).collect();
+                    println!("second {} stream ({}): close calls {:x?}", name, if same_poll { "same poll" } else { "later poll" }, closed);
+                    if closed != vec![creation] {
+                        println!("REPRODUCED: a second {} stream is not the connection error H3_STREAM_CREATION_ERROR", name);
+                        rc = 1;
+                    }
+                    std::mem::forget(conn);
+                }
+            }
+            // one of each kind is legal
+            let (mock, mut conn) = server(false);
+            mock.push_uni(2, vec![RecvEvent::Data(vec![0x00, 0x04, 0x00])]);
+            mock.push_uni(6, vec![RecvEvent::Data(vec![0x02])]);
+            mock.push_uni(10, vec![RecvEvent::Data(vec![0x03])]);
+            for _ in 0..3 {
+                let _ = conn.poll_accept_request_stream(&mut cx);
+            }
+            let closed: Vec<u64> = mock.world.lock().unwrap().log.closed.iter().map(|c| c.0).collect();
+            println!("one control, one encoder, one decoder stream: close calls {:x?}", closed);
+            if !closed.is_empty() {
+                println!("REPRODUCED: the first stream of a critical kind is refused");
+                rc = 1;
+            }
+            std::mem::forget(conn);
+        }
+        "unknown" => {
+            let (mock, mut conn) = server(false);
+            mock.push_uni(2, vec![RecvEvent::Data(vec![0x21, 1, 2, 3])]);
+            mock.push_uni(6, vec![RecvEvent::Data(vec![0x3f])]);
+            mock.push_uni(10, vec![RecvEvent::Fin]);
+            mock.push_uni(14, vec![RecvEvent::Reset(0x10c)]);
+            mock.push_uni(18, vec![RecvEvent::Data(vec![0x40]), RecvEvent::Fin]);
+            for _ in 0..3 {
+                let _ = conn.poll_accept_request_stream(&mut cx);
+            }
+            let w = mock.world.lock().unwrap();
+            let closed: Vec<u64> = w.log.closed.iter().map(|c| c.0).collect();
+            let stops = w.log.stop_sendings.clone();
+            println!("unknown / early-ended streams: close calls {:x?}, stop_sending {:x?}", closed, stops);
+            if !closed.is_empty() {
+                println!("REPRODUCED: an unknown or early-ended unidirectional stream closes the connection");
+                rc = 1;
+            }
+            for id in [2u64, 6] {
+                if stops.iter().filter(|s| s.0 == id).map(|s| s.1).collect::<Vec<_>>() != vec![creation] {
+                    println!("REPRODUCED: the unknown stream {} is not stop_sending'ed with H3_STREAM_CREATION_ERROR exactly once", id);
+                    rc = 1;
+                }
+            }
+            drop(w);
+            std::mem::forget(conn);
+        }
+        "wt" => {
+            for enabled in [true, false] {
+                let (mock, mut conn) = server(enabled);
+                mock.push_uni(2, vec![RecvEvent::Data(vec![0x40, 0x54, 0x08, b'x'])]);
+                for _ in 0..3 {
+                    let _ = conn.poll_accept_request_stream(&mut cx);
+                }
+                let n = conn.inner.accepted_streams_mut().wt_uni_streams.len();
+                let closed = mock.world.lock().unwrap().log.closed.len();
+                println!("WebTransport enabled={}: streams handed on {}, close calls {}", enabled, n, closed);
+                if (n == 1) != enabled || closed != 0 {
+                    println!("REPRODUCED: a WebTransport unidirectional stream is {} although the extension is {}",
+                        if n == 1 { "handed on" } else { "not handed on" }, if enabled { "enabled" } else { "not enabled" });
+                    rc = 1;
+                }
+                std::mem::forget(conn);
+            }
+        }
+        _ => return 2,
     }
     rc
 }
